@@ -475,6 +475,118 @@ fn trio<S: MdkStorageProvider>(cx: &mut Cx, mk: &mut dyn FnMut(&'static str) -> 
     Some(Trio { alice, bob, carol, gid })
 }
 
+
+// ---- adversarial MLS messages (built with OpenMLS directly on a member's own state) -------------
+
+/// wrap serialized MLS bytes exactly as mdk does (NIP-44 under the exporter secret of the sender's current epoch,
+/// ephemeral signer, `h` tag)
+fn adv_wrap<S: MdkStorageProvider>(cx: &mut Cx, c: &Client<S>, gid: &GroupId, bytes: &[u8]) -> Option<Event> {
+    let g = c.mdk.get_group(gid).ok()??;
+    let mg = openmls::prelude::MlsGroup::load(c.mdk.provider.storage(), gid.inner()).ok()??;
+    let sec = mg.export_secret(c.mdk.provider.crypto(), "nostr", b"nostr", 32).ok()?;
+    cx.canary("exporter_secret", &sec);
+    let keys = Keys::new(nostr::SecretKey::from_slice(&sec).ok()?);
+    let content = nostr::nips::nip44::encrypt(keys.secret_key(), &keys.public_key, bytes, nostr::nips::nip44::Version::default()).ok()?;
+    EventBuilder::new(Kind::MlsGroupMessage, content)
+        .tag(Tag::custom(TagKind::h(), [hex::encode(g.nostr_group_id)]))
+        .sign_with_keys(&Keys::generate())
+        .ok()
+}
+
+/// proposals and a commit a NON-ADMIN member crafts with OpenMLS directly; every one is delivered to `victims`
+fn adversarial<S: MdkStorageProvider>(cx: &mut Cx, adv: &Client<S>, gid: &GroupId, kp_event: Option<&Event>, victims: &[&Client<S>]) {
+    use openmls::prelude::{BasicCredential, CredentialWithKey, LeafNodeParameters, MlsGroup};
+    use openmls_basic_credential::SignatureKeyPair;
+    use tls_codec::Serialize as _;
+    let storage = adv.mdk.provider.storage();
+    let Ok(Some(mut mg)) = MlsGroup::load(storage, gid.inner()) else {
+        cx.out.push("{\"t\":\"error\",\"what\":\"adversarial: cannot load the MLS group\"}".into());
+        return;
+    };
+    let Some(own) = mg.own_leaf() else { return };
+    let Some(signer) = SignatureKeyPair::read(storage, own.signature_key().as_slice(), mg.ciphersuite().signature_algorithm()) else {
+        cx.out.push("{\"t\":\"error\",\"what\":\"adversarial: cannot read the signer\"}".into());
+        return;
+    };
+    let own_idx = mg.own_leaf_index();
+    let Some(other) = mg.members().find(|m| m.index != own_idx).map(|m| m.index) else { return };
+    let mut send = |cx: &mut Cx, what: &str, bytes: Vec<u8>| {
+        let wrapped = adv_wrap(cx, adv, gid, &bytes);
+        if wrapped.is_none() {
+            cx.out.push(format!("{{\"t\":\"error\",\"what\":\"adversarial: cannot wrap {what}\"}}"));
+        }
+        if let Some(ev) = wrapped {
+            for v in victims {
+                deliver(cx, v, what, &ev);
+            }
+            deliver(cx, victims[0], &format!("{what}-replay"), &ev);
+        }
+    };
+    // Remove proposal
+    if let Ok((msg, _)) = mg.propose_remove_member(&adv.mdk.provider, &signer, other) {
+        if let Ok(b) = msg.tls_serialize_detached() {
+            send(cx, "adv-proposal-remove", b);
+        }
+    }
+    else {
+        cx.out.push("{\"t\":\"error\",\"what\":\"adversarial: propose_remove_member failed\"}".into());
+    }
+    let _ = mg.clear_pending_proposals(storage);
+    // Add proposal
+    if let Some(kpe) = kp_event {
+        if let Some(kp) = cx.call("adv.parse_key_package", adv.mdk.parse_key_package(kpe)) {
+            if let Ok((msg, _)) = mg.propose_add_member(&adv.mdk.provider, &signer, &kp) {
+                if let Ok(b) = msg.tls_serialize_detached() {
+                    send(cx, "adv-proposal-add", b);
+                }
+            }
+            let _ = mg.clear_pending_proposals(storage);
+        }
+    }
+    // Update proposal (same identity), then one that changes the credential identity
+    if let Ok((msg, _)) = mg.propose_self_update(&adv.mdk.provider, &signer, LeafNodeParameters::default()) {
+        if let Ok(b) = msg.tls_serialize_detached() {
+            send(cx, "adv-proposal-update", b);
+        }
+    }
+    let _ = mg.clear_pending_proposals(storage);
+    let stolen = Keys::generate().public_key();
+    let cred = CredentialWithKey { credential: BasicCredential::new(stolen.to_bytes().to_vec()).into(), signature_key: signer.public().into() };
+    if let Ok((msg, _)) = mg.propose_self_update(&adv.mdk.provider, &signer, LeafNodeParameters::builder().with_credential_with_key(cred).build()) {
+        if let Ok(b) = msg.tls_serialize_detached() {
+            send(cx, "adv-proposal-update-identity-change", b);
+        }
+    }
+    let _ = mg.clear_pending_proposals(storage);
+    // GroupContextExtensions proposal (keeps the current extensions)
+    let exts = mg.extensions().clone();
+    if let Ok((msg, _)) = mg.propose_group_context_extensions(&adv.mdk.provider, exts, &signer) {
+        if let Ok(b) = msg.tls_serialize_detached() {
+            send(cx, "adv-proposal-gce", b);
+        }
+    }
+    let _ = mg.clear_pending_proposals(storage);
+    // self-update COMMIT whose update path changes the credential identity
+    let cred2 = CredentialWithKey { credential: BasicCredential::new(Keys::generate().public_key().to_bytes().to_vec()).into(), signature_key: signer.public().into() };
+    match mg.self_update(&adv.mdk.provider, &signer, LeafNodeParameters::builder().with_credential_with_key(cred2).build()) {
+        Ok(bundle) => {
+            if let Ok(b) = bundle.commit().tls_serialize_detached() {
+                send(cx, "adv-commit-self-update-identity-change", b);
+            }
+        }
+        Err(e) => cx.out.push(format!("{{\"t\":\"note\",\"what\":{}}}", json_str(&format!("adversarial self_update refused by OpenMLS: {e}")))),
+    }
+    let _ = mg.clear_pending_commit(storage);
+    // Remove COMMIT by the non-admin
+    if let Ok((msg, _, _)) = mg.remove_members(&adv.mdk.provider, &signer, &[other]) {
+        if let Ok(b) = msg.tls_serialize_detached() {
+            send(cx, "adv-commit-remove-by-non-admin", b);
+        }
+    }
+    let _ = mg.clear_pending_commit(storage);
+    cx.flush();
+}
+
 // ---- scenarios ---------------------------------------------------------------------------------
 
 fn scn_lifecycle<S: MdkStorageProvider>(cx: &mut Cx, mk: &mut dyn FnMut(&'static str) -> MDK<S>) {
@@ -529,6 +641,12 @@ fn scn_lifecycle<S: MdkStorageProvider>(cx: &mut Cx, mk: &mut dyn FnMut(&'static
         if let Some(m) = cx.call("alice.create_message", a.mdk.create_message(gid, rumor(&a.keys, "after eviction"))) {
             deliver(cx, &dave, "app-after-eviction", &m);
             deliver(cx, b, "app", &m);
+        }
+        if let Some(su) = cx.call("bob.self_update", b.mdk.self_update(gid)) {
+            deliver(cx, &dave, "commit-after-eviction", &su.evolution_event);
+            deliver(cx, a, "commit-self-update-2", &su.evolution_event);
+            deliver(cx, c, "commit-self-update-2", &su.evolution_event);
+            cx.call("bob.merge_pending_commit", b.mdk.merge_pending_commit(gid));
         }
     }
     // group data update with h-id rotation and new image material
@@ -650,7 +768,17 @@ fn scn_commit_race<S: MdkStorageProvider>(cx: &mut Cx, mk: &mut dyn FnMut(&'stat
     deliver(cx, a, "commit-worse", worse);
     // alice sends in the epoch she is about to lose
     let own = cx.call("alice.create_message", a.mdk.create_message(gid, rumor(&a.keys, "sent on the losing branch")));
+    // the winner's committer moves on and sends on the winning branch; alice (on the losing branch) cannot read it yet
+    let winner = if better.id == ca.evolution_event.id { b } else { c };
+    cx.call("winner.merge_pending_commit", winner.mdk.merge_pending_commit(gid));
+    let early = cx.call("winner.create_message", winner.mdk.create_message(gid, rumor(&winner.keys, "sent on the winning branch")));
+    if let Some(m) = &early {
+        deliver(cx, a, "app-from-winning-branch-too-early", m);
+    }
     deliver(cx, a, "commit-better(rollback)", better);
+    if let Some(m) = &early {
+        deliver(cx, a, "app-from-winning-branch-retry", m);
+    }
     deliver(cx, a, "commit-worse-again", worse);
     if let Some(m) = &own {
         deliver(cx, a, "own-app-after-rollback", m);
@@ -787,6 +915,12 @@ fn scn_hostile<S: MdkStorageProvider>(cx: &mut Cx, mk: &mut dyn FnMut(&'static s
                 deliver(cx, b, "commit-nonadmin-self-update", &su.evolution_event);
                 deliver(cx, c, "commit-nonadmin-self-update", &su.evolution_event);
                 cx.call("frank.merge_pending_commit", frank.mdk.merge_pending_commit(gid));
+            }
+            // everything a non-admin can craft with OpenMLS directly, seen by an admin and by a plain member
+            {
+                let grace = Keys::generate();
+                let kpg = key_package_for(cx, &frank.mdk, &grace, "grace");
+                adversarial(cx, &frank, gid, kpg.as_ref(), &[a, b]);
             }
             // a leave proposal seen by a non-admin receiver (stored as pending) and by an admin (auto-commit)
             if let Some(lv) = cx.call("carol.leave_group", c.mdk.leave_group(gid)) {
